@@ -87,7 +87,8 @@ def gen_query(rnd, N, p_invalid):
     if x < 0.40:
         return [rnd.choice(NOARG), [], {}]
     if x < 0.47:
-        return ["get_deltaMax", [True], {}] if rnd.random() < 0.5 else ["get_deltaMax", [], {"returnSeqDeltaMax": True}]
+        flag = rnd.choice((True, True, True, 1, 2))          # any truthy flag asks for the permutant
+        return ["get_deltaMax", [flag], {}] if rnd.random() < 0.5 else ["get_deltaMax", [], {"returnSeqDeltaMax": flag}]
     if x < 0.55:
         name = rnd.choice(("get_FCR", "get_fraction_expanding", "get_NCPR", "get_mean_net_charge"))
         ph = rnd.choice((-1, 15, 14.01, -0.5)) if inv else rnd.choice((0, 7, 7.4, 14, 3.3, 10.5, None))
@@ -97,7 +98,10 @@ def gen_query(rnd, N, p_invalid):
     if x < 0.62:
         if rnd.random() < 0.5:
             return ["get_kappa_X", [gen_group(rnd, inv)], {}]
-        return ["get_kappa_X", [gen_group(rnd), gen_group(rnd, inv)], {}]
+        g1, g2 = gen_group(rnd), gen_group(rnd, inv)
+        if rnd.random() < 0.3 and isinstance(g1, list) and isinstance(g2, list) and g2:
+            g1 = g1 + g2[:1]                                  # overlapping groups
+        return ["get_kappa_X", [g1, g2], {}]
     if x < 0.65:
         return ["get_PPII_propensity", [rnd.choice(("foo", "")) if inv else rnd.choice(("hilser", "creamer", "kallenbach", "HILSER"))], {}]
     if x < 0.76:
@@ -162,6 +166,9 @@ PATTERNS = (
     [["get_linear_complexity", [], {"complexityType": "XX"}], ["get_linear_complexity", [], {"blobLen": 2}]],
     [["get_reduced_alphabet_sequence", [7], {}], ["get_reduced_alphabet_sequence", [8], {}], ["get_reduced_alphabet_sequence", [], {}]],
     [["get_kappa_after_phosphorylation", [], {}], ["get_kappa", [], {}], ["get_full_phosphostatus_kappa_distribution", [], {}]],
+    [["get_kappa_X", [["E", "D"], ["K", "D"]], {}], ["get_kappa_X", [["K", "D"], ["E", "D"]], {}], ["get_kappa_X", [["E", "D"]], {}],
+     ["get_kappa_X", [["E", "D"], ["E", "D"]], {}], ["get_kappa_X", [["K", "R"], ["E", "D"]], {}], ["get_kappa_X", [["E", "D"], ["K", "R"]], {}]],
+    [["get_deltaMax", [1], {}], ["get_deltaMax", [], {}], ["get_deltaMax", [1], {}], ["get_deltaMax", [True], {}], ["get_deltaMax", [1], {}]],
     [["get_isoelectric_point", [], {}], ["get_NCPR", [7.0], {}], ["get_mean_net_charge", [3.5], {}], ["get_FCR", [10.5], {}], ["get_fraction_expanding", [7.0], {}]],
     [["get_NCPR", [7.0], {}], ["get_FCR", [3.5], {}], ["get_isoelectric_point", [], {}], ["get_NCPR", [7.0], {}]],
     [["get_linear_sigma", [3], {}], ["get_linear_FCR", [3], {}], ["get_linear_NCPR", [3], {}], ["get_linear_sigma", [3], {}]],
@@ -251,7 +258,12 @@ def gen_plan(streams, tier):
             lens.append(N)
             strs.append(strs[o])
         else:
-            ops.append({"o": o, "q": gen_query(rnd, N, p_invalid)})
+            q = gen_query(rnd, N, p_invalid)
+            ops.append({"o": o, "q": q})
+            if q[0] == "get_kappa_X" and len(q[1]) == 2 and rnd.random() < 0.5:
+                ops.append({"o": o, "q": ["get_kappa_X", [copy.deepcopy(q[1][1]), copy.deepcopy(q[1][0])], {}]})
+            elif q[0] == "get_kappa_X" and len(q[1]) == 1 and rnd.random() < 0.3:
+                ops.append({"o": o, "q": ["get_kappa_X", [copy.deepcopy(q[1][0]), copy.deepcopy(q[1][0])], {}]})
     p_scribble = rnd.choice((0.0, 0.0, 0.15, 0.4))
     p_post = rnd.choice((0.0, 0.3, 1.0))
     for op in ops:
@@ -410,7 +422,7 @@ def _run(plan, ctx, oracle, seqmod, sfp, spmod, SequenceParameters, fsbox):
         ctx.log.emit("q", o=i, name=name, exc=got.get("exc") if is_exc else None, same=(got == want))
         ctx.count("compared_calls")
         st = state[i]
-        perm_call = name == "get_deltaMax" and (q[1] == [True] or q[2].get("returnSeqDeltaMax"))
+        perm_call = name == "get_deltaMax" and (bool(q[1] and q[1][0]) or bool(q[2].get("returnSeqDeltaMax")))
         # probes on the orders that matter
         if perm_call and st["dmax"] and not st["perm"]:
             ctx.probe("permutant_after_value")
